@@ -413,6 +413,10 @@ type c20Gen struct {
 	sets   [][]byte
 	setFld [][]c20Field
 	units  int
+	// long: give the first top-level array 257..400 elements (the decoder allocates arrays of more than
+	// 256 elements as their content arrives; a hostile count is then only dangerous once real elements
+	// carried the decoder past the pre-allocated part)
+	long bool
 }
 
 func (g *c20Gen) str(lo, hi int) string { return string(c20RandBytes(g.r, lo, hi, false)) }
@@ -446,6 +450,10 @@ func (g *c20Gen) value(f *refcodec.Field, ver int, flex bool, depth int) any {
 		n := g.r.Range(1, 2)
 		if depth >= 2 {
 			n = 1
+		}
+		if g.long && depth == 0 {
+			g.long = false
+			n = g.r.Range(257, 400)
 		}
 		elem := *f
 		elem.Array = false
@@ -505,7 +513,8 @@ var c20LenRoles = map[string]bool{"framesize": true, "strlen": true, "cstrlen": 
 // c20SchemaFrame encodes a generated response of api at ver with refcodec and
 // returns the frame with all its length / count fields.
 func c20SchemaFrame(r *core.Rand, api *refcodec.API, ver int) ([]byte, []c20Field) {
-	g := &c20Gen{r: r}
+	g := &c20Gen{r: r, long: r.Chance(1, 5)}
+	long := g.long
 	val := g.fields(api.Resp, ver, api.Flexible(ver), 0)
 	frame, fmap, err := refcodec.EncodeResponseFrame(api, ver, int32(r.Intn(1<<30)), val)
 	if err != nil {
@@ -561,6 +570,16 @@ func c20SchemaFrame(r *core.Rand, api *refcodec.API, ver int) ([]byte, []c20Fiel
 				}
 			}
 		}
+	}
+	if long && len(out) > 48 {
+		// a frame with hundreds of elements has thousands of length fields: keep the leading ones (frame
+		// size, tag sections, the long array's count, the first elements) and a sample of the rest
+		keep := append([]c20Field(nil), out[:32]...)
+		rest := out[32:]
+		for i := 0; i < 16; i++ {
+			keep = append(keep, rest[r.Intn(len(rest))])
+		}
+		out = keep
 	}
 	return frame, out
 }
